@@ -161,9 +161,23 @@ static void errors_case(Case& c) {
             int srows = rng.coin(15) ? rows + 1 : rows, scols = rng.coin(15) ? cols + 1 : cols;
             DRaster mean(rows, cols, 0.0), sd(srows, scols, 0.0);
             std::ostringstream ms;
-            bool bad = rng.coin(25);
-            for (int a = 0; a < rows; a++) for (int b = 0; b < cols; b++) { int k64 = (bad && rng.coin(40)) ? (rng.coin() ? rng.in(-20, -1) : rng.in(65, 90)) : rng.in(0, 64); mean(a, b) = k64 / 64.0; ms << " " << (k64 < 0 ? "-" + rat64(-k64) : rat64(k64)); }
-            for (int a = 0; a < srows; a++) for (int b = 0; b < scols; b++) sd(a, b) = rng.in(0, 64) / 16.0;
+            bool bad = rng.coin(35);
+            // standard deviations: a degenerate 0 is frequent (the draw then returns the mean itself),
+            // so that "mean out of range" and "sd = 0" coincide in the same cell regularly
+            int sdmode = rng.in(0, 3);  // 0: all zero, 1: mixed with zeros, 2,3: positive
+            for (int a = 0; a < srows; a++) for (int b = 0; b < scols; b++) {
+                int k16 = sdmode == 0 ? 0 : sdmode == 1 ? (rng.coin(50) ? 0 : rng.in(1, 64)) : rng.in(1, 64);
+                sd(a, b) = k16 / 16.0;
+            }
+            int badcell = rng.in(0, rows * cols - 1);
+            for (int a = 0; a < rows; a++) for (int b = 0; b < cols; b++) {
+                bool isbad = bad && (a * cols + b == badcell || rng.coin(20));
+                int k64 = isbad ? (rng.coin(30) ? (rng.coin() ? -1 : 65) : rng.coin() ? rng.in(-20, -1) : rng.in(65, 90)) : (rng.coin(20) ? (rng.coin() ? 0 : 64) : rng.in(0, 64));
+                mean(a, b) = k64 / 64.0; ms << " " << (k64 < 0 ? "-" + rat64(-k64) : rat64(k64));
+            }
+            ms << " |";
+            for (int a = 0; a < srows; a++) for (int b = 0; b < scols; b++) ms << " " << dyadic(sd(a, b));
+            stats.add(std::string("weather_sd_") + (sdmode == 0 ? "zero" : sdmode == 1 ? "mixed" : "positive") + (bad ? "_badmean" : "_goodmean"));
             Env env; Provider prov(rng.next());
             std::string e = err_kind([&] { env.update_weather_from_distribution(mean, sd, prov); });
             out << "err.weatherdist " << rows << " " << cols << " " << srows << " " << scols << ms.str() << " => ";
